@@ -157,10 +157,14 @@ fn apply(st: &Option<Vec<u8>>, p: &Prim) -> (Option<Vec<u8>>, Rep) {
 struct OpRec {
     id: usize,
     inv: u64,
+    /// response stamp; meaningless when `pending`
     ret: u64,
     prims: Vec<Prim>,
     reps: Vec<Rep>,
     via: String,
+    /// the request was abandoned (future dropped / task aborted) after it was started: no reply
+    /// was observed; it may take effect at any instant after `inv`, or never
+    pending: bool,
 }
 #[derive(Clone, Debug)]
 struct Window {
@@ -170,16 +174,40 @@ struct Window {
     ops: Vec<OpRec>,
 }
 
-/// Exhaustive search over the real-time-respecting orders, memoised on (set done, value).
-/// Returns a witness order (indices into `w.ops`) when the window is linearizable.
-fn linearize(w: &Window) -> Option<Vec<usize>> {
+/// What a command can answer at all on a string-or-absent key.  Anything else is a reply that
+/// belongs to some other request.
+fn shape_ok(p: &Prim, r: &Rep) -> bool {
+    match (p, r) {
+        (Prim::Get, Rep::Val(_)) => true,
+        (Prim::Set(_), Rep::Ok) => true,
+        (Prim::Incr, Rep::Int(_)) | (Prim::Incr, Rep::ErrNotInt) | (Prim::Incr, Rep::ErrOverflow) => true,
+        (Prim::Append(_), Rep::Int(_)) => true,
+        (Prim::Del, Rep::Int(0)) | (Prim::Del, Rep::Int(1)) => true,
+        _ => false,
+    }
+}
+fn window_shapes_ok(w: &Window) -> bool {
+    w.ops.iter().filter(|o| !o.pending).all(|o| o.prims.len() == o.reps.len() && o.prims.iter().zip(o.reps.iter()).all(|(p, r)| shape_ok(p, r)))
+}
+
+/// Exhaustive search over the real-time-respecting orders of the completed operations plus any
+/// subset of the pending ones (classical definition: some completion of the history),
+/// memoised on (set placed, value).  Returns the witness: indices into `w.ops` in linearization
+/// order, with the replies the reference machine gives along it.
+fn linearize(w: &Window) -> Option<Vec<(usize, Vec<Rep>)>> {
     let n = w.ops.len();
-    if n > 60 || w.ops.iter().any(|o| o.inv >= o.ret) {
+    if n > 60 || w.ops.iter().any(|o| !o.pending && o.inv >= o.ret) {
         return None;
     }
-    fn go(w: &Window, done: u64, st: &Option<Vec<u8>>, seen: &mut HashSet<(u64, Option<Vec<u8>>)>, order: &mut Vec<usize>) -> bool {
+    let mut completed_mask = 0u64;
+    for (i, o) in w.ops.iter().enumerate() {
+        if !o.pending {
+            completed_mask |= 1 << i;
+        }
+    }
+    fn go(w: &Window, cm: u64, done: u64, st: &Option<Vec<u8>>, seen: &mut HashSet<(u64, Option<Vec<u8>>)>, order: &mut Vec<(usize, Vec<Rep>)>) -> bool {
         let n = w.ops.len();
-        if done == (1u64 << n) - 1 {
+        if done & cm == cm {
             return true;
         }
         if seen.contains(&(done, st.clone())) {
@@ -190,25 +218,28 @@ fn linearize(w: &Window) -> Option<Vec<usize>> {
                 continue;
             }
             let o = &w.ops[i];
-            // minimal: no other remaining operation returned before o was invoked
-            if (0..n).any(|j| j != i && done & (1 << j) == 0 && w.ops[j].ret < o.inv) {
+            // minimal: no other remaining COMPLETED operation returned before o was invoked
+            // (a pending operation has no response, it never forces anything after it)
+            if (0..n).any(|j| j != i && done & (1 << j) == 0 && !w.ops[j].pending && w.ops[j].ret < o.inv) {
                 continue;
             }
             let mut cur = st.clone();
-            let mut ok = o.prims.len() == o.reps.len();
+            let mut ok = o.pending || o.prims.len() == o.reps.len();
+            let mut got = Vec::new();
             if ok {
-                for (p, r) in o.prims.iter().zip(o.reps.iter()) {
+                for (k, p) in o.prims.iter().enumerate() {
                     let (nx, rr) = apply(&cur, p);
-                    if &rr != r {
+                    if !o.pending && rr != o.reps[k] {
                         ok = false;
                         break;
                     }
+                    got.push(rr);
                     cur = nx;
                 }
             }
             if ok {
-                order.push(i);
-                if go(w, done | (1 << i), &cur, seen, order) {
+                order.push((i, got));
+                if go(w, cm, done | (1 << i), &cur, seen, order) {
                     return true;
                 }
                 order.pop();
@@ -219,27 +250,45 @@ fn linearize(w: &Window) -> Option<Vec<usize>> {
     }
     let mut seen = HashSet::new();
     let mut order = Vec::new();
-    if go(w, 0, &w.init, &mut seen, &mut order) { Some(order) } else { None }
+    if go(w, completed_mask, 0, &w.init, &mut seen, &mut order) { Some(order) } else { None }
 }
 fn linearizable(w: &Window) -> bool {
     linearize(w).is_some()
 }
 
-/// The window as a Coq term.  The operations are listed in the witness order when there is one:
-/// `lin_check` is a complete search, so the listing order cannot change its answer, only how
-/// soon the depth-first search meets a linearization.
+/// The window as a Coq term (a COMPLETE history for `lin_check`).
+/// * linearizable: the completed operations plus the pending ones the witness uses, each of
+///   those completed with a response stamp after everything else (a pending operation has no
+///   response: any later stamp describes it) and the replies the reference machine assigns -
+///   i.e. the completion of the history that the classical definition asks to exist; Coq
+///   re-judges that completion.  Listed in witness order (`lin_check` is complete, the order
+///   cannot change its answer, only how soon the search meets a linearization).
+/// * not linearizable (no completion is): the completed operations alone; in particular that
+///   completion is not linearizable, and Coq says so.
 fn window_term(w: &Window, verdict: bool) -> String {
-    let idx: Vec<usize> = linearize(w).unwrap_or_else(|| (0..w.ops.len()).collect());
-    let ops = clist(idx.iter().map(|&i| &w.ops[i]), |o| {
-        format!("Oc {} {} {} {} {}", o.id, o.inv, o.ret, clist(o.prims.iter(), prim_term), clist(o.reps.iter(), rep_term))
-    });
-    format!("W2 {} {} {}", copt(&w.init, |v| chex(v)), ops, cbool(verdict))
+    let maxstamp = w.ops.iter().map(|o| if o.pending { o.inv } else { o.ret.max(o.inv) }).max().unwrap_or(0);
+    let items: Vec<String> = match linearize(w) {
+        Some(order) => {
+            let mut k = 0;
+            order.iter().map(|(i, reps)| {
+                let o = &w.ops[*i];
+                let ret = if o.pending { k += 1; maxstamp + k } else { o.ret };
+                format!("Oc {} {} {} {} {}", o.id, o.inv, ret, clist(o.prims.iter(), prim_term), clist(reps.iter(), rep_term))
+            }).collect()
+        }
+        None => w.ops.iter().filter(|o| !o.pending).map(|o| {
+            format!("Oc {} {} {} {} {}", o.id, o.inv, o.ret, clist(o.prims.iter(), prim_term), clist(o.reps.iter(), rep_term))
+        }).collect(),
+    };
+    format!("W2 {} [{}] {}", copt(&w.init, |v| chex(v)), items.join("; "), cbool(verdict))
 }
 fn window_json(w: &Window, verdict: bool) -> Value {
     json!({
-        "key": w.key, "round": w.round, "init": w.init.as_ref().map(|v| hex(v)),
+        "key": w.key, "key_hex": hex(w.key.as_bytes()), "round": w.round, "init": w.init.as_ref().map(|v| hex(v)),
         "harness_verdict_linearizable": verdict,
-        "ops": w.ops.iter().map(|o| json!({"id": o.id, "inv": o.inv, "ret": o.ret, "via": o.via,
+        "reply_shapes_possible": window_shapes_ok(w),
+        "ops": w.ops.iter().map(|o| json!({"id": o.id, "inv": o.inv, "ret": if o.pending { Value::Null } else { json!(o.ret) }, "via": o.via,
+            "pending": o.pending,
             "prims": o.prims.iter().map(prim_json).collect::<Vec<_>>(),
             "reps": o.reps.iter().map(rep_json).collect::<Vec<_>>()})).collect::<Vec<_>>(),
         "coq_window": window_term(w, verdict),
@@ -255,6 +304,7 @@ fn window_of_json(v: &Value) -> Window {
             inv: o["inv"].as_u64().unwrap_or(0),
             ret: o["ret"].as_u64().unwrap_or(0),
             via: o["via"].as_str().unwrap_or("").to_string(),
+            pending: o["pending"].as_bool().unwrap_or(false),
             prims: o["prims"].as_array().cloned().unwrap_or_default().iter().map(prim_of_json).collect(),
             reps: o["reps"].as_array().cloned().unwrap_or_default().iter().map(rep_of_json).collect(),
         }).collect(),
